@@ -19,6 +19,11 @@ def cases(seed, tier):
     n = 60 if tier == 'quick' else 1500
     for i in range(n):
         t = T.rand_tree(rng, rng.choice(['root', 'r', 'my tree']), rng.choice([2, 4, 7, 12, 25]), md_p=0.5)
+        if t['mds'] and rng.random() < 0.4:
+            # root Metadata renamed after it was attached (the key it is held under no longer equals its name, possibly the name of
+            # another entry's key): a save into a fresh file stores every entry under its key
+            keys = [m[0] for m in t['mds']]
+            t['mds'] = [[m[0], m[1], rng.choice([m[0] + '_v2', rng.choice(keys), 'zz'])] for m in t['mds']]
         paths = T.all_paths(t)
         combos = [(p, tr) for p in paths for tr in (True, False, None)]
         rng.shuffle(combos)
